@@ -338,9 +338,13 @@ def _extract_attributes(element):
         sqname = etree.QName(subel)
         # an empty element carries the empty string
         text = subel.text if subel.text is not None else ""
-        _t = xml_qname_to_QualifiedName(
-            subel, "%s:%s" % (subel.prefix, sqname.localname)
-        )
+        # an element in the default namespace has no prefix
+        if subel.prefix is None:
+            _t = xml_qname_to_QualifiedName(subel, sqname.localname)
+        else:
+            _t = xml_qname_to_QualifiedName(
+                subel, "%s:%s" % (subel.prefix, sqname.localname)
+            )
 
         for key, value in subel.attrib.items():
             if key == _ns_xsi("type"):
